@@ -46,6 +46,8 @@ pub fn check(v: &View, vd: &mut Verdict) {
         v.ops
             .iter()
             .filter(|o| matches!(o.what, OpWhat::Reg(RegOp::Register | RegOp::Replace | RegOp::Unregister, k) if k == kind))
+            // a refused register() leaves the registry as it was
+            .filter(|o| !matches!(o.res, Some(OpRes::Reg(RegRes::RegisterErr { .. }))))
             .map(|o| o.begin)
             .min()
             .unwrap_or(u64::MAX)
